@@ -47,7 +47,7 @@ def tree_eq(a, b):
 
 def run(tier, replay=None):
     res = Result("C01", tier)
-    st = prepare("C01", translate=translate.run_all)
+    st = prepare("C01", translate=translate.run_all, extra_modules=["RzilVerif.Props.T2Sem", "RzilVerif.Props.CompileHEqv"])
     res.proof = st
     use_repo()
     beh = rc.load_behaviours()
@@ -148,6 +148,7 @@ def run(tier, replay=None):
     known_ids = {k["id"]: k for k in known_for("C01") if k.get("scope") == "generated"}
     known_feats = {f for k in known_ids.values() for f in k.get("feature_any", [])}
     buckets = collections.Counter()
+    cert_detail = collections.Counter()
     by_class = collections.Counter()
     examples = {}
     for (i, _), rp_ in zip(reqs, out):
@@ -157,7 +158,7 @@ def run(tier, replay=None):
             viol.append({"what": f"{it['insn']}: emitted text could not be read by the semantic driver", "instruction": it["insn"], "program": it["src0"]})
             continue
         cnt["states_run"] += d["ran"]
-        cert = d.get("certified") == "1"
+        cert = d.get("certified") == "1" or d.get("certified-sem") == "1"
         if not d["tree-equal"]:
             buckets["tie_broken"] += 1
             viol.append({"what": f"{it['insn']} part {it['part']}: the real output is not what the lowering model predicts" +
@@ -178,6 +179,7 @@ def run(tier, replay=None):
                 viol.append({"what": f"{it['insn']} part {it['part']}: the emitted effect does not compute what the C text computes: {d['fail']}",
                              "instruction": it["insn"], "program": it["src0"], "ast": json.dumps(it["ast"]), "real_tree": d["real"][:2500]})
             continue
+        cert_detail[d.get("cert-detail")] += 1
         if cert:
             buckets["proved_for_all_states"] += 1
             if len(examples.get("_certified", [])) < 6:
@@ -207,7 +209,8 @@ def run(tier, replay=None):
         "rule": "one evaluation = one accepted corpus part analysed by the Lean per-output checkers, or one (part, state) execution of the C semantics and of the REAL emitted effect; distinct = behaviour parts of the run (thorough: every part of all 2181 definitions; quick: seeded stratified sample over instruction classes and features)",
         "counts": dict(cnt), "semantic_buckets": dict(buckets), "modelled_parts": len(sem_items),
         "unmodelled_by_reason": dict(unmodelled.most_common(40)), "known_class_failures_by_carve_out_class": dict(by_class),
-        "certified_examples": examples.get("_certified", []), "violations_total": len(viol),
+        "certified_examples": examples.get("_certified", []),
+        "certificate_conjuncts (ctx ok, WFStmts, WFES, CarveProgSem, HybFreeSs, HSameProg)": dict(cert_detail), "violations_total": len(viol),
         "samples": [{"instruction": it["insn"], "program": it["src0"][:200], "status": it["status"], "modelled": "ast" in it} for it in items[:4]],
     })
     res.assumptions += ["parts outside the modelled dialect (reasons counted in unmodelled_by_reason) are checked per output only (sort/well-formedness/ownership), not semantically",
